@@ -193,6 +193,7 @@ package driver
 //@ func newSecretsObject
 //@   props C10 C01
 //@   requires rls != nil && rls.Info != nil && (lbs == nil || lbs != rls.Labels)
+//@   ensures [no-other-labels] err == nil ==> forall k string :: has(result.ObjectMeta.Labels, k) ==> isSystemKey(k) || has(rls.Labels, k) || (lbs != nil && has(lbs, k))
 //@   ensures [key] err == nil ==> result != nil && result.ObjectMeta.Name == key
 //@   ensures [system-labels-win] err == nil ==> systemLabelsOf(result.ObjectMeta.Labels, rls)
 //@   ensures [user-labels-kept] err == nil ==> forall k string :: has(rls.Labels, k) && !isSystemKey(k) ==> has(result.ObjectMeta.Labels, k) && result.ObjectMeta.Labels[k] == rls.Labels[k]
@@ -200,6 +201,7 @@ package driver
 //@ func newConfigMapsObject
 //@   props C10 C01
 //@   requires rls != nil && rls.Info != nil && (lbs == nil || lbs != rls.Labels)
+//@   ensures [no-other-labels] err == nil ==> forall k string :: has(result.ObjectMeta.Labels, k) ==> isSystemKey(k) || has(rls.Labels, k) || (lbs != nil && has(lbs, k))
 //@   ensures [key] err == nil ==> result != nil && result.ObjectMeta.Name == key
 //@   ensures [system-labels-win] err == nil ==> systemLabelsOf(result.ObjectMeta.Labels, rls)
 //@   ensures [user-labels-kept] err == nil ==> forall k string :: has(rls.Labels, k) && !isSystemKey(k) ==> has(result.ObjectMeta.Labels, k) && result.ObjectMeta.Labels[k] == rls.Labels[k]
@@ -287,3 +289,25 @@ package driver
 //@   ensures [values-kept] forall k string :: has(result, k) ==> result[k] == lbs[k]
 //@   loop 1 invariant [visited-are-keys] forall k string :: #done[k] ==> has(lbs, k)
 //@   loop 1 invariant [so-far] result != nil && fresh(result) && (forall k string :: has(result, k) <==> #done[k] && !(k == "name" || k == "owner" || k == "status" || k == "version" || k == "createdAt" || k == "modifiedAt")) && (forall k string :: has(result, k) ==> result[k] == lbs[k])
+
+// ---- C10: what a create / update puts on the stored object besides the system labels are the labels of
+// the release being written and one timestamp — never labels of an object stored earlier
+//@ func (*Secrets).Update
+//@   props C10
+//@   requires secrets != nil && secrets.impl != nil && rls != nil && rls.Info != nil
+//@   assert [labels-of-this-release-and-the-timestamp-only] at "time.Now().Unix()" forall k string :: has(lbs, k) ==> k == "modifiedAt" || has(rls.Labels, k) && lbs[k] == rls.Labels[k]
+
+//@ func (*Secrets).Create
+//@   props C10
+//@   requires secrets != nil && secrets.impl != nil && rls != nil && rls.Info != nil
+//@   assert [labels-of-this-release-and-the-timestamp-only] at "time.Now().Unix()" forall k string :: has(lbs, k) ==> k == "createdAt" || has(rls.Labels, k) && lbs[k] == rls.Labels[k]
+
+//@ func (*ConfigMaps).Update
+//@   props C10
+//@   requires cfgmaps != nil && cfgmaps.impl != nil && rls != nil && rls.Info != nil
+//@   assert [labels-of-this-release-and-the-timestamp-only] at "time.Now().Unix()" forall k string :: has(lbs, k) ==> k == "modifiedAt" || has(rls.Labels, k) && lbs[k] == rls.Labels[k]
+
+//@ func (*ConfigMaps).Create
+//@   props C10
+//@   requires cfgmaps != nil && cfgmaps.impl != nil && rls != nil && rls.Info != nil
+//@   assert [labels-of-this-release-and-the-timestamp-only] at "time.Now().Unix()" forall k string :: has(lbs, k) ==> k == "createdAt" || has(rls.Labels, k) && lbs[k] == rls.Labels[k]
